@@ -322,7 +322,12 @@ class BaseObserver(EventDispatcher):
             if watch not in self._emitter_for_watch:
                 emitter = self._emitter_class(self.event_queue, watch, timeout=self.timeout, event_filter=event_filter)
                 if self.is_alive() and self.should_keep_running():
-                    emitter.start()
+                    try:
+                        emitter.start()
+                    except Exception:
+                        # Release what the emitter may already have acquired before its thread failed to start.
+                        emitter.stop()
+                        raise
                 self._add_emitter(emitter)
             self._add_handler_for_watch(event_handler, watch)
             self._watches.add(watch)
